@@ -692,6 +692,29 @@ fn drive_run(t: &mut Trace, d: &mut Drv, run: usize, len: usize) {
     let mut return_pl: Option<Vec<String>> = None;
     // definitions of rules that were removed, for re-adding them later
     let mut grave: Vec<(String, Vec<String>, Vec<String>)> = Vec::new();
+    // Directed: a rule is identified by its context type and its SETS of signers and policies, however they came about.
+    // A rule built as {x, y} + add_policy(z) equals the rule {x, y, z}: adding the latter must be refused as a duplicate,
+    // whichever of the three policies came last (the one whose address sorts in the middle included).
+    if !small && run % 2 == 1 {
+        for k in 0..3usize {
+            let sgk = vec![pool[k].to_string()];
+            let (two, third) = (vec![POLS[k % 3].to_string(), POLS[(k + 1) % 3].to_string()], POLS[(k + 2) % 3]);
+            nm += 1;
+            let ev = sys.step(&with(mkop("add_rule"), &[("ct", json!("D")), ("vu", json!(-1)), ("name", json!(format!("r{nm}"))),
+                                                        ("signers", json!(sgk)), ("pols", json!(two))]));
+            t.step(ev);
+            let o = sys.obs();
+            let id = o["rules"].as_array().unwrap().iter().filter(|r| arr(r, "signers") == sgk && st(r, "ct") == "D")
+                .filter_map(|r| r["id"].as_i64()).max().unwrap_or(-1);
+            let ev = sys.step(&with(mkop("add_policy"), &[("id", json!(id)), ("p", json!(third))]));
+            t.step(ev);
+            nm += 1;
+            let all3: Vec<String> = POLS[..3].iter().map(|x| x.to_string()).collect();
+            let ev = sys.step(&with(mkop("add_rule"), &[("ct", json!("D")), ("vu", json!(-1)), ("name", json!(format!("r{nm}"))),
+                                                        ("signers", json!(sgk)), ("pols", json!(all3))]));
+            t.step(ev);
+        }
+    }
     for i in 0..len {
         let o = sys.obs();
         let rules: Vec<Value> = o["rules"].as_array().unwrap().clone();
@@ -747,7 +770,14 @@ fn drive_run(t: &mut Trace, d: &mut Drv, run: usize, len: usize) {
                     sg = g.1;
                     return_pl = Some(g.2);
                 }
-                let pl = return_pl.take().unwrap_or(pl);
+                let mut pl = return_pl.take().unwrap_or(pl);
+                if !rules.is_empty() && d.r.gen_bool(0.1) {
+                    // an exact copy of a live rule as it stands after all edits: a duplicate, to be refused
+                    let live = pick(&mut d.r, &rules).clone();
+                    ct = st(&live, "ct").to_string();
+                    sg = arr(&live, "signers");
+                    pl = arr(&live, "pols");
+                }
                 with(mkop("add_rule"), &[("ct", json!(ct)), ("vu", json!(pick(&mut d.r, &vus))),
                                          ("name", json!(format!("r{nm}"))), ("signers", json!(sg)), ("pols", json!(pl))])
             }
